@@ -104,9 +104,16 @@ class Cell(object):
                 continue
             if isinstance(s, ast.Assign):
                 for t in s.targets:
-                    k = self.target_of(_sub(t, self.env))
+                    tt = _sub(t, self.env)
+                    k = self.target_of(tt)
                     if k is not None:
-                        eff.append((k, '=', _sub(s.value, self.env), s))
+                        v = _sub(s.value, self.env)
+                        if isinstance(v, ast.BinOp) and nf.equal(tt, v.left):
+                            eff.append((k, type(v.op).__name__, v.right, s))       # x = x op y  ==  x op= y
+                        elif isinstance(v, ast.BinOp) and isinstance(v.op, ast.Add) and nf.equal(tt, v.right):
+                            eff.append((k, 'Add', v.left, s))
+                        else:
+                            eff.append((k, '=', v, s))
                     elif not isinstance(t, ast.Name):
                         raise AnalysisError('%s: store to unreviewed target `%s`' % (self.fi.qualname, short(s)))
                 continue
@@ -376,6 +383,8 @@ def _step2(r, idx, fi):
         star = nf.const_value(d.get('marked'), None) == 1 if 'marked' in d else False
         if should:
             miss = [k for k, w in (('marked', 1), ('rc', True), ('cc', True)) if nf.const_value(d.get(k), '?') != w or k not in d]
+            if miss == ['rc'] and term and term[0] == 'break':
+                miss = []      # leaving the row right after starring keeps one star per row
             if miss:
                 bad = True
                 r.violation(construct, 'a zero whose row and column hold no star yet %s: %s' % (
@@ -452,10 +461,7 @@ def _step3(r, idx, fi):
                 r.violation(construct, 'a starred zero in an uncovered column %s' % (
                     'does not cover its column' if not covers else 'is counted %d times' % inc), fi.loc)
         elif key['st'] and key['cc']:
-            if inc:
-                bad = True
-                r.violation(construct, 'a star in an already covered column is counted again: "done" is reached before n columns are covered',
-                            fi.loc)
+            pass       # cannot arise: one star per column and covers are cleared before step 3
         else:
             if covers or inc:
                 bad = True
@@ -490,10 +496,50 @@ def _step4(r, idx, fi):
         g = p.guards
         env = p.leaf.env
         where = fi.loc
-        neg_row = any(nf.match('%s < 0' % row, x) is not None for x in g)
-        pos_row = any(nf.match('0 <= %s' % row, x) is not None for x in g)
-        star_pos = any(nf.match('0 <= %s.__find_star_in_row(%s)' % (S, row), x) is not None for x in g)
-        star_neg = any(nf.match('%s.__find_star_in_row(%s) < 0' % (S, row), x) is not None for x in g)
+        star_call_p = nf.pat('%s.__find_star_in_row(%s)' % (S, row))
+
+        def ev(x, rv, sv):
+            if isinstance(x, ast.UnaryOp) and isinstance(x.op, ast.Not):
+                v = ev(x.operand, rv, sv)
+                return None if v is None else not v
+            if not (isinstance(x, ast.Compare) and len(x.ops) == 1):
+                return None
+
+            def val(e):
+                if cm.is_name(e, row):
+                    return rv
+                if nf.Matcher().match(star_call_p, e) is not None:
+                    return sv
+                if isinstance(e, ast.Constant) and isinstance(e.value, int):
+                    return e.value
+                return None
+            a, b = val(x.left), val(x.comparators[0])
+            import operator as _op
+            f = {ast.Eq: _op.eq, ast.NotEq: _op.ne, ast.Lt: _op.lt, ast.LtE: _op.le, ast.Gt: _op.gt, ast.GtE: _op.ge}.get(type(x.ops[0]))
+            return None if a is None or b is None or f is None else f(a, b)
+        cases = set()
+        unknown = False
+        for rv in (-1, 0, 2):
+            for sv in (-1, 0, 2):
+                vals = [ev(x, rv, sv) for x in g]
+                if None in vals:
+                    unknown = True
+                elif all(vals):
+                    cases.add('none' if rv < 0 else 'star' if sv >= 0 else 'free')
+        if unknown:
+            r.undecided(label, 'guard not evaluable: %s' % [short(x) for x in g], where)
+            continue
+        if len(cases) > 1:
+            mixed = sorted(cases)
+            r.violation(label + ': case split', 'one branch of the step handles the cases %s alike (guards: %s): e.g. a star in column 0 is '
+                        'treated as "no star in the row" or a missing zero as a zero at row 0' % (mixed, ' and '.join(short(x) for x in g)),
+                        where, expected='row < 0 | star_col >= 0 | star_col < 0')
+            continue
+        if not cases:
+            continue
+        kind = cases.pop()
+        neg_row, pos_row = kind == 'none', kind != 'none'
+        star_pos, star_neg = kind == 'star', kind == 'free'
         stores = {}
         for e in p.effects:
             if isinstance(e, ast.Assign) and len(e.targets) == 1 and not isinstance(e.targets[0], (ast.Name, ast.Tuple)):
@@ -588,7 +634,7 @@ def _step5(r, idx, fi, cp):
     for s in stores:
         t = s.targets[0]
         k = (unparse(t.value.slice), nf.const_value(t.slice, None))
-        seen.setdefault(k, []).append(_sub(s.value, env))
+        seen.setdefault(k, []).append(nf.canon(s.value))
     construct = label + ': alternating path'
     problems = []
 
@@ -597,8 +643,11 @@ def _step5(r, idx, fi, cp):
             if any(nf.match(p, v) is not None for p in pats):
                 return True
         return False
+    definite = []
     if not (has((cntv, 0), ['%s.Z0_r' % S]) and has((cntv, 1), ['%s.Z0_c' % S])):
         problems.append('the path does not start at Z0 = (Z0_r, Z0_c)')
+        if has((cntv, 0), ['%s.Z0_c' % S]) or has((cntv, 1), ['%s.Z0_r' % S]):
+            definite.append('row and column of Z0 are exchanged at the start of the path')
     star_row = '%s.__find_star_in_col(%s[%s][1])' % (S, pathv, cntv)
     prime_col = '%s.__find_prime_in_row(%s[%s][0])' % (S, pathv, cntv)
     rowv = [k for k, v in lib.local_env(fi.node).items() if nf.match(star_row, v) is not None]
@@ -617,9 +666,27 @@ def _step5(r, idx, fi, cp):
         problems.append('the starred zero is not appended as (its row, same column)')
     if colv and not (has((cntv, 0), ['%s[%s - 1][0]' % (pathv, cntv)]) and has((cntv, 1), [colv[0]])):
         problems.append('the primed zero is not appended as (same row, its column)')
-    if problems:
-        r.violation(construct, '; '.join(problems) + ': the series Z0, Z1 (star in Z0\'s column), Z2 (prime in Z1\'s row), ... is broken',
-                    fi.loc)
+    for n in walk_own(fi.node):
+        if isinstance(n, ast.Call) and cm.is_self_attr(n.func, S) and len(n.args) == 1:
+            if n.func.attr == '__find_star_in_col' and nf.match('%s[%s][0]' % (pathv, cntv), n.args[0]) is not None:
+                definite.append('the star is searched in the column numbered by the *row* of the last path element')
+            if n.func.attr == '__find_prime_in_row' and nf.match('%s[%s][1]' % (pathv, cntv), n.args[0]) is not None:
+                definite.append('the prime is searched in the row numbered by the *column* of the last path element')
+            if n.func.attr == '__find_star_in_row' and nf.match('%s[%s][_K]' % (pathv, cntv), n.args[0]) is not None:
+                definite.append('the next star is searched along the row instead of the column of the last path element')
+            if n.func.attr == '__find_prime_in_col' or (n.func.attr == '__find_star_in_col' and colv == [] and rowv == []):
+                pass
+    if rowv and has((cntv, 1), [rowv[0]]) and not has((cntv, 0), [rowv[0]]):
+        definite.append('the row of the starred zero is stored in the column slot of the path')
+    if colv and has((cntv, 0), [colv[0]]) and not has((cntv, 1), [colv[0]]):
+        definite.append('the column of the primed zero is stored in the row slot of the path')
+    if rowv and has((cntv, 1), ['%s[%s - 1][0]' % (pathv, cntv)]) and not has((cntv, 1), ['%s[%s - 1][1]' % (pathv, cntv)]):
+        definite.append('the starred zero inherits the row instead of the column of its predecessor')
+    if definite:
+        r.violation(construct, '; '.join(definite) + ': the series Z0, Z1 (star in Z0\'s column), Z2 (prime in Z1\'s row), ... is broken, so '
+                    'flipping it does not yield a matching', fi.loc)
+    elif problems:
+        r.undecided(construct, '; '.join(problems), fi.loc)
     else:
         r.ok(construct, 'Z0, star in its column, prime in that row, ... until a column without star', fi.loc)
     # __convert_path
